@@ -14,8 +14,13 @@ def run_h(history):
     return pm.run_history(_CFG, history)
 
 
-def mk_cfg(ctx):
-    return pm.Cfg(seed=ctx.seed, slots=("A",), max_objs=3 if ctx.thorough else 2, actions=(), clock=True,
+def mk_cfg(ctx, variant="main"):
+    if variant == "deny":
+        # objects built while /proc/<pid>/stat was unreadable (creation time unknown), permission restored later: whatever
+        # psutil decides about their equality, a mere query (create_time(), is_running() ...) must not change it afterwards
+        return pm.Cfg(seed=ctx.seed, slots=("A",), max_objs=2, actions=(), clock=False, queries=("name",), numeric=True,
+                      use_iter=False, use_exit=False, max_denies=1, create_time_event=True)
+    return pm.Cfg(seed=ctx.seed, slots=("A",), max_objs=3 if ctx.thorough else 2, actions=("sig65",), clock=True,
                   queries=(), numeric=True, use_iter=True, use_exit=ctx.thorough, oneshot=True,
                   iterhold=True, comm={"A": b"a) b c"})
 
@@ -25,7 +30,25 @@ def run(ctx):
     _CFG = mk_cfg(ctx)
     depth = 9 if ctx.thorough else 8
     res = bfs(run_h, depth, ctx)
-    cov = {
+    for v in res["violations"]:
+        if isinstance(v.get("case"), dict):
+            v["case"].setdefault("part", "H")
+    _CFG = mk_cfg(ctx, "deny")
+    r2 = bfs(run_h, 8 if ctx.thorough else 7, ctx)
+    for v in r2["violations"]:
+        v["case"]["variant"] = "deny"
+        v["case"]["part"] = "H"
+    res["violations"] = res["violations"] + r2["violations"]
+    res["states"] += r2["states"]
+    res["transitions"] += r2["transitions"]
+    res["deny_variant"] = {"states": r2["states"], "transitions": r2["transitions"], "depth": r2["max_depth"]}
+    from vf.checks import c02s
+    ctx.close()
+    sres = c02s.run_s(ctx)
+    res["violations"] = res["violations"] + sres["violations"]
+    res["states"] += sres["coverage"]["executions"]
+    res["transitions"] += sres["coverage"]["transitions"]
+    cov = {"schedules": sres["coverage"], "deny_variant": res["deny_variant"],
         "states": res["states"], "transitions": res["transitions"],
         "traces_validated_against_impl": res["transitions"],
         "max_depth": res["max_depth"], "new_states_per_level": res["new_states_per_level"],
@@ -45,8 +68,11 @@ def run(ctx):
 
 
 def replay(ctx, case):
+    if case.get("part") == "S":
+        from vf.checks import c02s
+        return c02s.replay_s(ctx, case)
     global _CFG
-    _CFG = mk_cfg(ctx)
+    _CFG = mk_cfg(ctx, case.get("variant", "main"))
     ex = pm.Exec(_CFG)
     trace = []
     for ev in case["history"]:
